@@ -142,9 +142,19 @@ pub fn check(b: &Bound, c: &Case) -> Result<Option<String>, String> {
     if let Some(ctx) = &c.ctx {
         let kk = (k as i32 + c.ctx_k_delta).max(0) as u16;
         let gk = get_extended_symbolic_graph(&b.bn, kk)?;
-        let sets: HashMap<String, GraphColoredVertices> = ctx.iter().map(|(l, m)| (l.clone(), b.mk_set_in(&gk, m))).collect();
+        // labels `raw` / `rawa` are sets that are NOT confined to the valid colours: the whole symbolic space /
+        // "first variable is true" for every parameter valuation (the tool must hand them to the evaluation as archived)
+        let mk = |gr: &biodivine_lib_param_bn::symbolic_async_graph::SymbolicAsyncGraph, l: &str, m: &Vec<Mask>| -> GraphColoredVertices {
+            let sc = gr.symbolic_context();
+            match l {
+                "raw" => GraphColoredVertices::new(sc.mk_constant(true), sc),
+                "rawa" => GraphColoredVertices::new(sc.mk_state_variable_is_true(gr.variables().next().unwrap()), sc),
+                _ => b.mk_set_in(gr, m),
+            }
+        };
+        let sets: HashMap<String, GraphColoredVertices> = ctx.iter().map(|(l, m)| (l.clone(), mk(&gk, l, m))).collect();
         build_result_archive(sets, epath.to_str().unwrap(), b.bn.to_string().as_str(), vec![]).map_err(|e| e.to_string())?;
-        ctx_sets = ctx.iter().map(|(l, m)| (l.clone(), b.mk_set_in(&g, m))).collect();
+        ctx_sets = ctx.iter().map(|(l, m)| (l.clone(), mk(&g, l, m))).collect();
     }
     let mut args: Vec<String> = vec![mpath.to_str().unwrap().into(), fpath.to_str().unwrap().into(), "-p".into(), c.print.clone()];
     if c.with_out {
@@ -203,7 +213,9 @@ pub fn check(b: &Bound, c: &Case) -> Result<Option<String>, String> {
             if bl.formula != c.formulas[i] {
                 return Ok(Some(format!("block {i} is for {:?}, line {i} of the file is {:?}", bl.formula, c.formulas[i])));
             }
-            let (t, col, st) = counts(&bk, &lib_masks[i]);
+            let raw_case = c.ctx.as_ref().map(|x| x.iter().any(|(l, _)| l == "raw" || l == "rawa")).unwrap_or(false);
+            // with context sets outside the valid colours the numbers are those of the library's raw set
+            let (t, col, st) = if raw_case { (lib[i].approx_cardinality(), lib[i].colors().approx_cardinality(), lib[i].vertices().approx_cardinality()) } else { counts(&bk, &lib_masks[i]) };
             if (bl.results, bl.colors, bl.states) != (t, col, st) {
                 return Ok(Some(format!(
                     "formula {:?}: tool prints {} results / {} colours / {} states, the library's set has {} / {} / {}",
@@ -420,6 +432,16 @@ pub fn run(tier: &str) -> Result<Report, String> {
     }
     let prints = ["no-print", "summary", "with-progress", "exhaustive"];
     let mut cases: Vec<(Arc<Bound>, Case)> = vec![];
+    // context sets that are not confined to the valid colours (constrained networks)
+    for b in nets.iter().filter(|b| ["con2", "unf2"].contains(&b.name.as_str())) {
+        let fams = label_families(b, 4);
+        let labels: Vec<(String, Vec<Mask>)> = vec![("raw".into(), vec![]), ("rawa".into(), vec![]), ("p".into(), fams[0].1.wild[0].clone())];
+        let v0 = b.spec.vars[0].clone();
+        let l: Vec<String> = vec!["%raw%".into(), format!("%rawa% | {v0}"), "EF %rawa%".into(), "~ %rawa%".into(), "%p% & %rawa%".into(), "!{x} in %rawa%: AX {x}".into()];
+        for (pi, print) in ["summary", "no-print"].iter().enumerate() {
+            cases.push((b.clone(), Case { fmt: "aeon".into(), layout: pi, print: print.to_string(), with_out: true, formulas: l.clone(), ctx: Some(labels.clone()), ctx_k_delta: 0 }));
+        }
+    }
     // networks with unusual variable names (like spare variables, like HCTL variables, prefixes, keywords)
     for b in name_nets(0)? {
         let (v0, v1) = (b.spec.vars[0].clone(), b.spec.vars[1].clone());
@@ -516,7 +538,7 @@ pub fn run(tier: &str) -> Result<Report, String> {
     rep.set("failure_configurations", json!(failures));
     rep.sample(json!({"network": "con2", "format": "sbml", "layout": 6, "print": "exhaustive", "-o": true, "formulae": plain_lists[1]}));
     rep.sample(json!({"formula_file_layout_6": formula_file(&plain_lists[2], 6)}));
-    rep.rule = format!("the hctl-model-checker binary built from the working tree is executed on {which:?} x model format (aeon, bnet, sbml where the format reproduces the network) x {LAYOUTS} formula-file layouts (comments, blank lines, surrounding blanks/tabs, CRLF, no final newline, mixed) x 4 print options x with/without -o x 3 plain + 2 extended formula lists, plus four networks whose variable names are unusual as data (Ca_extra_cell / b_extra_1, x / xx, a / ab, EF1 / TRUE) with five formulae each, plus 24 single-operator formula files (each unary / binary / hybrid operator and pattern in a file of its own) (context archive with labels p, d, dom_1 written for the k the tool derives), plus context archives written for k-1, k+1, k+2 and 18 failure configurations (5 of them formula files that cannot be read or parsed completely: the tool must report a problem or evaluate every formula, never a silent prefix). Compared: order and text of Formula blocks, printed result/colour/state counts vs exact counts of the library's sets, exhaustive state listing, archive entry list, formulae.txt, every archived BDD vs model_check_multiple_(extended_)formulae_dirty; failures must produce a message and no crash. distinct_nontrivial = executed configurations");
+    rep.rule = format!("the hctl-model-checker binary built from the working tree is executed on {which:?} x model format (aeon, bnet, sbml where the format reproduces the network) x {LAYOUTS} formula-file layouts (comments, blank lines, surrounding blanks/tabs, CRLF, no final newline, mixed) x 4 print options x with/without -o x 3 plain + 2 extended formula lists, plus context archives whose sets are not confined to the valid colours (whole symbolic space, a raw state variable) on constrained networks, plus four networks whose variable names are unusual as data (Ca_extra_cell / b_extra_1, x / xx, a / ab, EF1 / TRUE) with five formulae each, plus 24 single-operator formula files (each unary / binary / hybrid operator and pattern in a file of its own) (context archive with labels p, d, dom_1 written for the k the tool derives), plus context archives written for k-1, k+1, k+2 and 18 failure configurations (5 of them formula files that cannot be read or parsed completely: the tool must report a problem or evaluate every formula, never a silent prefix). Compared: order and text of Formula blocks, printed result/colour/state counts vs exact counts of the library's sets, exhaustive state listing, archive entry list, formulae.txt, every archived BDD vs model_check_multiple_(extended_)formulae_dirty; failures must produce a message and no crash. distinct_nontrivial = executed configurations");
     rep.assumptions.push("counts are compared with exact cardinalities computed from the point-wise read-back of the library's sets on valid colours".into());
     Ok(rep)
 }
